@@ -30,7 +30,7 @@ EXPLANATION = ("exhaustive single-fault injection at every user-callback "
                "invocation; reference = pre-state snapshot (outcome-deciding "
                "callbacks) or the fault-free twin (change handlers), plus a "
                "fixed follow-up suite compared with the twin")
-BOUNDS = {"quick": "53 scenarios x 2 pre-states, one fault per operation",
+BOUNDS = {"quick": "53 scenarios x 2 pre-states, one fault per operation, 5 exception flavours; 28 nested-policy cells",
           "thorough": "same + longer payloads (k up to 6 items)"}
 ASSUMPTIONS = ["one injected fault per operation", "post_setattr is not in "
                "the statement's list of callbacks", "trait_set/constructor "
